@@ -71,7 +71,7 @@ func (o *memOps) TryCommit(context.Context) (any, error) {
 // The same oracle through the command line: flags and SVN side files are part of the request.
 func TestSignedDocumentThroughCLI(t *testing.T) {
 	const name = "cli/document-vs-image"
-	ev.Rule(name, "the `endorse` command (cmd.MakeApp, fresh tree per run) over a generated firmware written to <dir>/<name>.fd with an SVN side file {absent, <name>.fd.scrtm.pb, <name>_scrtm_ver.pb} holding version 0..9 and flags --add_snp/--add_tdx, --snp_launch_vmsas, --snp_product, --snp_family_id, --snp_image_id, --tdx_machine_shapes, --tdx_include_early_accept, --svsm_snp_measurement_path (a 48-byte value as hex text, drawn in 1 of 3 SNP requests) with or without --svsm_path, --clspec, --commit, --timestamp, and the destination {manifest method, --candidate_name, --snapshot_dir}; one SNP request in ten carries a malformed family/image id (oracle: the command fails, the signer was not called, nothing is committed); recording CA/signer and an in-memory version-control double; oracle: every committed file that parses as a launch endorsement (at least one) was signed as is and its payload passes the same value-by-value comparison as document-vs-image, with the side file's SVN expected in EVERY requested technology section; non-trivial = both technologies or a side file with a non-zero version; distinct = (technologies, side-file kind, svn, request shape)")
+	ev.Rule(name, "the `endorse` command (cmd.MakeApp, fresh tree per run) over a generated firmware written to <dir>/<name>.fd with an SVN side file {absent, <name>.fd.scrtm.pb, <name>_scrtm_ver.pb} holding version 0..9 and flags --add_snp/--add_tdx, --snp_launch_vmsas, --snp_product, --snp_family_id, --snp_image_id (the same id space as document-vs-image: not given, or any well-formed UUID incl. the nil UUID, all ones, single bit, half-zero values, the default family id, in the spellings 8-4-4-4-12 lower/upper case, urn:uuid:, {braced}, bare hex; refusing a non-8-4-4-4-12 notation, the nil UUID or an all-zero SVSM value is inconclusive; classes family-id/value= etc. count the judged runs), --tdx_machine_shapes, --tdx_include_early_accept, --svsm_snp_measurement_path (a 48-byte value as hex text, drawn in 1 of 3 SNP requests) with or without --svsm_path, --clspec, --commit, --timestamp, and the destination {manifest method, --candidate_name, --snapshot_dir}; one SNP request in ten carries a malformed family/image id (oracle: the command fails, the signer was not called, nothing is committed); recording CA/signer and an in-memory version-control double; oracle: every committed file that parses as a launch endorsement (at least one) was signed as is and its payload passes the same value-by-value comparison as document-vs-image, with the side file's SVN expected in EVERY requested technology section; non-trivial = both technologies or a side file with a non-zero version; distinct = (technologies, side-file kind, svn, request shape)")
 	checks(ev.Scale(250, 2500))
 	rapid.Check(t, func(t *rapid.T) {
 		r := genRequest(t)
@@ -236,6 +236,10 @@ func TestSignedDocumentThroughCLI(t *testing.T) {
 			ev.Class(name, "inconclusive/unsupported-count-rejected")
 			return
 		}
+		if why := r.mayBeRefused(); runErr != nil && why != "" {
+			ev.Class(name, "inconclusive/"+why+"-rejected")
+			return
+		}
 		if runErr != nil {
 			ev.Violation(t, "C06/valid-request-rejected", "%s: endorse failed: %v", desc, runErr)
 			return
@@ -299,6 +303,7 @@ func TestSignedDocumentThroughCLI(t *testing.T) {
 		if svn > 9 {
 			ev.Class(name, "side-svn>9")
 		}
+		countRequestClasses(name, r, ev.Class)
 		// a side file holding version 0 is an empty file and says nothing: it does not make a case non-trivial
 		ev.Case(name, (r.sev && r.tdx) || (side != "none" && svn != 0), fmt.Sprintf("%v|%v|%s|%d|%d|%d|%v|%v|%v|%v|%s", r.sev, r.tdx, side, svn, r.vmsas, len(r.shapes), r.early, r.svsm != nil, svsmImage, omitVmsas, mode), fmt.Sprintf("sev=%v/tdx=%v/side=%s", r.sev, r.tdx, side), func() any {
 			return map[string]any{"args": args[3:], "side_file": side, "svn": svn}
